@@ -18,7 +18,8 @@ EXPLANATION = ("Numerical: expression trees over blank-separated + - * /, parent
                "unit equals the reference evaluator's base-value result (multiplication/division before addition/subtraction, left to right). Logical: comparisons, ~, !, ~!, && and || "
                "over numeric/boolean/string operands with symbolic numbers kept outside the 1e-6 tolerance band by precondition; z3 proves the truth value. Templates: the rendered text is "
                "compared with Python's format() on concrete values (formatting is C-level), covering each format class with width/precision and slices.")
-ASSUMPTIONS = dipkit.DIP_STUB_TEXT + ["numbers compared in logical expressions differ by more than 1e-3 relative or are exactly equal (the tolerance band itself is not judged)",
+ASSUMPTIONS = dipkit.DIP_STUB_TEXT + ["numerical operands are positive and denominators are subtraction-free; the result is claimed within 1e-9 of the magnitude scale (sum of the absolute additive terms), so cancellation of binary64 noise cannot raise an alarm",
+                                      "numbers compared in logical expressions differ by more than 1e-3 relative or are exactly equal (the tolerance band itself is not judged)",
                                       "function values (exp, log, sin ...) are uninterpreted: only their arguments are compared"]
 OUTSIDE = ['comparisons of two bare literals and of an int node with a float node (the library has no data type to compare in / refuses them)', 'array operands', 'sign folding together with ** inside DIP numerical expressions', 'values inside the comparison tolerance band']
 BOUNDS = {'quick': '150 numerical trees (<= 4 operators), 80 logical trees (<= 4 operators), 24 template cases', 'thorough': '900 numerical, 500 logical'}
@@ -44,30 +45,27 @@ def render(O, v, t):
     if k == 'neg': return '-' + render(O, v, t[1])
     return render(O, v, t[2]) + ' ' + t[1] + ' ' + render(O, v, t[3])
 def evalbase(O, v, t):
-    """(value in base units, length exponent) by the documented priorities: the tree is the documented parse"""
+    """(value in base units, length exponent, magnitude scale) by the documented priorities: the tree is the documented parse.
+    All inputs are positive; the scale adds where the value subtracts, so a claim relative to it is robust against cancellation."""
     k = t[0]
     if k in ('lit', 'ref'):
-        return getattr(v, t[1]) * fac(t[2]), (1 if t[2] in ('m', 'cm', 'km', 'in', '[len]') else 0)
+        x = getattr(v, t[1]) * fac(t[2])
+        return x, (1 if t[2] in ('m', 'cm', 'km', 'in', '[len]') else 0), x
     if k == 'par': return evalbase(O, v, t[1])
-    if k == 'neg':
-        a, d = evalbase(O, v, t[1]); return -a, d
     if k == 'pow':
-        a, d = evalbase(O, v, t[1]); r = 1
-        for _ in range(t[2]): r = r * a
-        return r, d * t[2]
-    if k == 'fn':
-        a, d = evalbase(O, v, t[2])
-        return {'exp': O.exp, 'log': O.ln, 'log10': O.log10, 'sin': O.sin, 'cos': O.cos, 'sqrt': O.sqrt}[t[1]](a), 0
-    a, da = evalbase(O, v, t[2]); b, db = evalbase(O, v, t[3])
-    if t[1] == '+': return a + b, da
-    if t[1] == '-': return a - b, da
-    if t[1] == '*': return a * b, da + db
-    if t[1] == '/': return a / b, da - db
+        a, d, s = evalbase(O, v, t[1]); r = 1; rs = 1
+        for _ in range(t[2]): r = r * a; rs = rs * s
+        return r, d * t[2], rs
+    a, da, sa = evalbase(O, v, t[2]); b, db, sb = evalbase(O, v, t[3])
+    if t[1] == '+': return a + b, da, sa + sb
+    if t[1] == '-': return a - b, da, sa + sb
+    if t[1] == '*': return a * b, da + db, sa * sb
+    if t[1] == '/': return a / b, da - db, sa / b        # denominators are subtraction-free (generator), so b > 0
 '''
 NUM_SRC = '''
 def run(v, O):
     expr = render(O, v, v.tree)
-    want, dim = evalbase(O, v, v.tree)
+    want, dim, scale = evalbase(O, v, v.tree)
     req = {0: None, 1: 'cm', 2: 'cm2', 3: 'dm3', -1: 'mm-1', -2: 'm-2', 4: 'm4', -3: 'm-3', -4: 'm-4'}[dim]
     lines = ['$unit len = 25 cm'] if v.custom else []
     for name, unit, mod in v.nodes:
@@ -80,7 +78,7 @@ def run(v, O):
     env = dip_parse('\\n'.join(lines))
     got = env.data(Format.TUPLE)['res']
     val = got[0] if isinstance(got, tuple) else got
-    return [('result in the requested unit equals the exact result', O.near(val * fac(req), want, 1e-9)), ('requested unit kept', O.same(got[1] if isinstance(got, tuple) else None, req))]
+    return [('result in the requested unit equals the exact result', O.near(val * fac(req), want, 1e-9, scale)), ('requested unit kept', O.same(got[1] if isinstance(got, tuple) else None, req))]
 '''
 MIX_SRC = '''
 def run(v, O):
@@ -154,6 +152,7 @@ class NG:
 
     def __init__(self, rnd, custom):
         self.rnd = rnd
+        self.nosub = 0
         self.names = []
         self.nodes = []
         self.custom = custom
@@ -186,12 +185,15 @@ class NG:
                 d2 = self.rnd.choice([0, 1])
                 if dim + d2 > 2:
                     d2 = 0
-                a, b = self.tree(dim + d2, budget - 1), self.tree(d2, budget - 1)
+                a = self.tree(dim + d2, budget - 1)
+                self.nosub += 1
+                b = self.tree(d2, budget - 1)
+                self.nosub -= 1
                 t = ('bin', '/', a, self.wrap(b))
             return t
         if r < 0.85:
             a, b = self.tree(dim, budget - 1), self.tree(dim, budget - 1)
-            return ('bin', self.rnd.choice(['+', '-']), self.wrapadd(a), self.wrap_term(b))
+            return ('bin', self.rnd.choice(['+', '-']) if not self.nosub else '+', self.wrapadd(a), self.wrap_term(b))
         if r < 0.93 and dim % 2 == 0 and dim > 0:
             return ('pow', self.tree(dim // 2, budget - 1), 2)
         return ('par', self.tree(dim, budget - 1))
@@ -299,7 +301,7 @@ def scenarios(tier, seed):
             inp[name + '_0'] = 'real'
         if not inp:
             continue
-        S.append(Scenario(f'numerical/{j}', NUM_SRC, inp, consts={'tree': t, 'nodes': g.nodes, 'custom': custom}, preamble=PRE, what=f'numerical expression {t}', samples=2))
+        S.append(Scenario(f'numerical/{j}', NUM_SRC, inp, [f'v.{n} > 0' for n in inp], consts={'tree': t, 'nodes': g.nodes, 'custom': custom}, preamble=PRE, what=f'numerical expression {t}', samples=2))
     bad = [('adding different dimensions', 'a float = ("10 m + 1 J")'), ('subtracting different dimensions', 'a float = ("10 m - 1 s") m'), ('reference to a missing node', 'a float = ("{?zz} * 2")'),
            ('result requested in another dimension', 'a float = ("2 m * 3 m") s'), ('unknown unit inside the expression', 'a float = ("2 foo + 1 foo")')]
     S.append(Scenario('numerical-rejected', MIX_SRC, {}, consts={'bad': bad}, preamble=PRE, what='numerical expressions that must be refused', samples=1))
@@ -324,7 +326,7 @@ def scenarios(tier, seed):
             continue
         S.append(Scenario(f'logical/{j}', LOG_SRC, inp, pre, consts={'tree': t, 'nodes': state['nodes']}, preamble=LOG_PRE, what=f'logical expression {t}', samples=2))
     S.append(Scenario('templates', TPL_SRC, {}, consts={'cases': TEMPLATES}, preamble=PRE, what='templates against Python format()', samples=1))
-    S.append(Scenario('canary/priority', NUM_SRC, {'x1': 'real', 'x2': 'real', 'x3': 'real'},
+    S.append(Scenario('canary/priority', NUM_SRC, {'x1': 'real', 'x2': 'real', 'x3': 'real'}, ['v.x1 > 0', 'v.x2 > 0', 'v.x3 > 0'],
                       consts={'tree': ('bin', '*', ('bin', '+', ('lit', 'x1', 'm'), ('lit', 'x2', 'cm')), ('lit', 'x3', None)), 'nodes': [], 'custom': False}, preamble=PRE, canary=True))
     return S
 
